@@ -237,6 +237,12 @@ func (table *Table) findRow(primary []byte) (*Row, bool, error) {
 	if row, ok := table.rowmap[string(primary)]; ok {
 		return row, true, nil
 	}
+	//a pending delete hides the row that is still in the database
+	for i := len(table.rows) - 1; i >= 0; i-- {
+		if table.rows[i].Ty == Del && bytes.Equal(table.rows[i].Primary, primary) {
+			return nil, false, types.ErrNotFound
+		}
+	}
 	row, err := table.GetData(primary)
 	return row, false, err
 }
